@@ -52,6 +52,7 @@ class Radio:
         self.spi_log = None           # list of (time, mosi bytes) when enabled
         self.ce_log = None            # list of (time, level, config) when enabled
         self.on_rx_dr = None          # harness callback (lazy idle polling)
+        self.on_store = None          # harness callback(pipe, payload) when a payload enters the RX FIFO (explicit fault rules hook in here)
         self.irq_edges = 0
         self.carrier = False
         self.mon = None               # optional monitor object with callbacks
@@ -478,6 +479,8 @@ class Radio:
             self.stats["rx"] += 1
             self.last_rx = key
             stored = True
+            if self.on_store is not None:
+                self.on_store(pipe, bytes(data))
             self.sim.log("rx", self.name, pipe, bytes(data))
             # a new packet on this pipe confirms the ACK payload that went out before (M6)
             ent = self.ack_inflight.pop(pipe, None)
